@@ -123,7 +123,7 @@ private:
     static PyTreeTypeRegistry *Singleton();
 
     template <bool NoneIsLeaf>
-    static void RegisterImpl(const py::object &cls,
+    static bool RegisterImpl(const py::object &cls,
                              const py::function &flatten_func,
                              const py::function &unflatten_func,
                              const py::object &path_entry_type,
